@@ -87,6 +87,12 @@ PROPS = {
                   ignore=lambda d: d["op"].startswith("mon C10")),
              dict(comp="lru", decisive=lambda d: d["op"].startswith("mon C11")),
              dict(comp="lruchain", driver="lruover", decisive=lambda d: d["op"].startswith("mon C11"))],
+        go_cmds=("seq", "conc"),
+        # under concurrent creations the cache must not hold on to more than its capacity, and every created value
+        # must reach the delete callback: the LRU trace harness of C09; what C11 talks about = its size / accounting monitors
+        conc=[dict(comp="lruconc", driver="lrutrace",
+                   decisive=lambda d: d["op"].startswith("mon C09-size-le-cap") or d["op"].startswith("mon C09-accounting"),
+                   ignore=lambda d: not (d["op"].startswith("mon C09-size-le-cap") or d["op"].startswith("mon C09-accounting")))],
         rule="same histories as C10; after EVERY op the Go-side monitor walks the real list from the head and checks linked nodes = Len+1+removed-but-pinned, pinned <= open iterators, and = Len+1 when no iterator is open; non-trivial as in C10. LRU half (component lruchain): histories of GetOrCreate (also failing) / Remove / Clear on a real ECache — exhaustive to depth 4 (quick) / 6 (thorough) for capacities 1..2 over 3 keys, random histories of 20..400 ops for capacities 1..16 — with the node chain of the cache's internal map compared after every op with LruOver.lstep, plus the monitor C11-lru-bounded; non-trivial there = a Clear of a non-empty cache and an eviction in one history",
         assumptions=["GC reachability of pooled nodes and wall-clock cost are runtime notions; the model bounds linked nodes and traversal steps"],
         trusted=["modelled, not verified: as C10"],
